@@ -1,12 +1,9 @@
 (* AtYmd.v — get_jdn, at_ordinal_date and at_ymd of every calendar a user can hold, classified
    completely: which requests succeed, with which date, and which error each refused request gets. *)
-From JV Require Import Sem Gen Spec.
+From JV Require Import Sem Gen Spec SpecX.
 From JV.Proofs Require Import SpecFacts GapFacts Cal Cmp Inner Year MonthGeom Shape Month MonthSpec SpecSums Walk SpecOrd SpecInv AtJdn.
 Open Scope Z_scope.
 Ltac Zify.zify_post_hook ::= Z.to_euclidean_division_equations.
-
-Definition jdn_result (v : Z) : Result Z ArithmeticError :=
-  match chk_jdn v with Some j => Ok j | None => Err mkArithmeticError end.
 
 Lemma year_count_le c y : 0 <= year_count c y <= 732 /\ 0 <= old_days c y <= 366 /\ 0 <= new_days c y <= 366.
 Proof.
@@ -100,11 +97,6 @@ Proof.
 Qed.
 
 (* ------------------------------------------------------------------ at_ordinal_date *)
-Definition date_result (c : cal) (v : Z) : Result Date DateError :=
-  match chk_jdn v with Some j => Ok (date_of c j) | None => Err DateError_Arithmetic end.
-Definition at_ordinal_date_spec (c : cal) (y o : Z) : Result Date DateError :=
-  if (o <? 1) || (year_count c y <? o) then Err (DateError_OrdinalOutOfRange y o (year_count c y))
-  else date_result c (jdn_of_ordinal c y o).
 
 Lemma chk_jdn_some v j : chk_jdn v = Some j -> j = v /\ in_i32 v.
 Proof. unfold chk_jdn. destruct (in_i32b v) eqn:E; intros X; inversion X; subst. split; [reflexivity|apply in_i32b_iff; exact E]. Qed.
@@ -127,13 +119,6 @@ Proof.
 Qed.
 
 (* ------------------------------------------------------------------ at_ymd *)
-Definition at_ymd_spec (c : cal) (y : Z) (m : Month) (d : Z) : Result Date DateError :=
-  let mz := Month_discr m in
-  if month_count c y mz =? 0 then Err (DateError_SkippedDate y m d)
-  else match sh_day_err y m (shape_of c y mz) d with
-       | Err e => Err e
-       | Ok p => date_result c (jdn_of_ordinal c y (msum c y mz + p))
-       end.
 
 Lemma at_ymd_ok c y m d : ValidCal c -> in_i32 y -> in_u32 d ->
   Calendar_at_ymd (cal_of c) y m d = Ret (at_ymd_spec c y m d).
